@@ -300,7 +300,13 @@ pub fn check_doc(doc: &Doc, text: &str, v: &J) -> Checked {
     }
 
     // (2) through From<Value<V>>
-    let back = J::from(v.clone().into_value());
+    let back = match monitor::run::quiet_catch(|| J::from(v.clone().into_value())) {
+        Ok(b) => b,
+        Err(m) => {
+            findings.push(Finding::new("C13/from-roundtrip/panic".to_string(), "serde_json::Value::from(v.into_value()) panicked", json!({"text": text, "panic": m})));
+            return Checked { findings, harness_fault: w.harness_fault, numbers: w.numbers, nodes: w.nodes };
+        }
+    };
     let bt = serde_json::to_string(&back).unwrap_or_default();
     if back != *v || bt != vt {
         let (at, sh, what) = first_diff(v, &back, &mut String::new()).unwrap_or_else(|| (String::new(), "document".into(), format!("{vt} became {bt}")));
@@ -778,7 +784,13 @@ pub fn deep_findings(shape: &str, depth: usize) -> Vec<Finding> {
             json!({"text": text, "outcome": other.show(), "reports": n_reports, "first_report": events.iter().find_map(|e| if let Event::Report(r) = e { Some(format!("{:?} at depth {}", r.kind, r.loc.len())) } else { None })}),
         )),
     }
-    let back = J::from(v.clone().into_value());
+    let back = match monitor::run::quiet_catch(|| J::from(v.clone().into_value())) {
+        Ok(b) => b,
+        Err(m) => {
+            findings.push(Finding::new("C13/from-roundtrip/deep-document-panic".to_string(), "serde_json::Value::from(v.into_value()) panicked on a deeply nested document", json!({"text": text, "panic": m})));
+            return findings;
+        }
+    };
     if back != v || serde_json::to_string(&back).ok() != serde_json::to_string(&v).ok() {
         findings.push(Finding::new(
             "C13/from-roundtrip/deep-document".to_string(),
